@@ -27,6 +27,7 @@ mutual
 /-- static sufficient condition for "this renderable always ends its last line" (`ProgressBar` never does: F23) -/
 def closedR : R → Bool
   | .text t => textClosed t
+  | .str t => textClosed t
   | .padding _ _ _ => true
   | .panel _ _ => true
   | .align _ _ => true
@@ -56,9 +57,12 @@ def annDom (t : Option T) (o : Opts) : Prop :=
   | none => True
   | some t => effOverflow t o ≠ RichModel.Overflow.ignore ∧ t.endStr = ['\n']
 
-/-- "columns free to wrap": no fixed width, no minimum width, wrapping allowed, no active ratio -/
+/-- free to wrap and without an active ratio (the domain of `Dep.width_fits`; kept for `tb_toTable_noRatio`) -/
 def ColOpts.free (expands : Bool) (c : ColOpts) : Prop :=
   c.width = none ∧ c.minWidth = none ∧ c.noWrap = false ∧ (expands = false ∨ c.ratio.getD 0 = 0)
+
+/-- "columns free to wrap": no fixed width, no minimum width, wrapping allowed -/
+def ColOpts.wrappable (c : ColOpts) : Prop := c.width = none ∧ c.minWidth = none ∧ c.noWrap = false
 
 def colOptsOf : Col → ColOpts | .mk o _ _ _ => o
 
@@ -73,11 +77,13 @@ by a container), rendered under options `o` with `w` cells available.  Container
 * `Constrain` / `Align` hand their child a narrower width: that width must still be at or above the child's
   structural minimum (this is the statement's "W at or above the structural minimum", at the inner width);
 * group: every member in the domain, and every member but the last ends its line (a `ProgressBar` does not: F23);
-* table: columns free to wrap, title / caption in the text domain and ending their line, an explicit `Table(width=…)` leaves
-  room for the borders and one cell per column;
+* table (any number of columns, also none): columns free to wrap (no `width`, `min_width`, `no_wrap`; ratios are fine, except a
+  `ratio=0` column in an expanding table: finding `table-ratio-zero-column`), title / caption in the text domain and ending
+  their line, an explicit `Table(width=…)` leaves room for the borders and one cell per column;
 * bar / progress bar: proper fractions (`den > 0`), no negative `width`. -/
 def Dom (cfg : Cfg) : R → Opts → Nat → Prop
   | .text t, o, _ => textDom t o
+  | .str t, o, _ => textDom t o
   | .padding _ _ _, _, _ => True
   | .panel _ _, _, _ => True
   | .align ao c, o, w =>
@@ -94,7 +100,8 @@ def Dom (cfg : Cfg) : R → Opts → Nat → Prop
   | .bar bo, _, _ => 0 < bo.size.den ∧ 0 < bo.beginV.den ∧ 0 < bo.endV.den ∧ 0 ≤ bo.width.getD 0
   | .progressBar po, _, _ => 0 < po.total.den ∧ 0 < po.completed.den ∧ 0 ≤ po.width.getD 0
   | .table to cols, o, _ =>
-    annDom to.title o ∧ annDom to.caption o ∧ cols ≠ [] ∧ (∀ c ∈ cols, (colOptsOf c).free (to.expand || to.width.isSome)) ∧
+    annDom to.title o ∧ annDom to.caption o ∧
+      (∀ c ∈ cols, (colOptsOf c).wrappable ∧ ((to.expand || to.width.isSome) = false ∨ (colOptsOf c).ratio ≠ some 0)) ∧
       (∀ tw, to.width = some tw → tableExtra to cols.length + cols.length ≤ tw)
   | .columns co _, o, _ => annDom co.title o ∧ co.lay.width = none
   | .tree _, _, _ => True
